@@ -477,6 +477,26 @@ def stdioAddressed (c : Nat) : Frame → Bool
   | .value (.obj m) => keyIs c (idOf m)
   | _ => false
 
+/-- the line names the `endpoint` event type -/
+def Line.namesEndpoint (l : Line) : Bool :=
+  match l.kind with
+  | .event name => decide (name = t!"endpoint")
+  | _ => false
+
+/-- what is waiting in the legacy reader's `eventData` is not addressed to call `c` -/
+def legDataNotFor (c : Nat) : Option Payload → Bool
+  | some p => !legAddressed c p
+  | none => true
+
+/-- one `message` event with an arbitrary payload -/
+def legEventP (p : Payload) (size : Nat) : List Line := [eventLine t!"message", ⟨.data p, false, size⟩, blankLine]
+
+/-- bytes the stdio decoder cannot get past -/
+def Frame.junk : Frame → Bool
+  | .garbage => true
+  | .truncated => true
+  | _ => false
+
 /-- states of the legacy reader that agree on everything call `c` can observe -/
 def LegSim (c : Nat) (s1 s2 : LegSt) : Prop :=
   s1.halt = s2.halt ∧ s1.etype = s2.etype ∧ s1.data = s2.data ∧ s1.latch = s2.latch ∧
